@@ -333,7 +333,7 @@ pub fn run(ctx: &mut Ctx) {
     ctx.section(
         "trackers",
         "ChainTracker::stats / collect_rhat / MultiChainTracker::rhat vs batch statistics at every checkpoint; p_accept range + EMA recurrence",
-        t.pick(2500, 250_000),
+        t.pick(25_000, 800_000),
         16,
         move || strategy(max_len),
         check,
